@@ -247,7 +247,13 @@ void MEDDLY::copy_MT::_compute(int L, unsigned in,
     //
     // Determine level information
     //
-    const int Alevel = L>0 && can_use_relation_nodes
+    //
+    // A primed-level node at the requested (primed) level cannot be
+    // traversed as a relation node; copy it node by node instead.
+    //
+    const bool use_relation_nodes = can_use_relation_nodes
+        && ( (L>0) || (argF->getNodeLevel(A) != L) );
+    const int Alevel = use_relation_nodes
         ? MXD_levels::unprimedOfLevel(argF->getNodeLevel(A))
         : argF->getNodeLevel(A);
 
@@ -287,7 +293,7 @@ void MEDDLY::copy_MT::_compute(int L, unsigned in,
         //
 
         unpacked_node* Cu = nullptr;
-        if (can_use_relation_nodes) {
+        if (use_relation_nodes) {
             //
             // Use relation nodes for relations, so we can copy
             // any implicit representation to MxDs
